@@ -16,7 +16,7 @@ from vf.props.c06 import check_next, restart
 ID = "C07"
 LEVEL = "fault_enumeration"
 RULE = (
-    "Hypothesis draws a run (all families/boxes/starts, callable gradient, maxcor 1..10, horizon K<=25, small maxls allowed). Every callback invocation k is a crash point: "
+    "Hypothesis draws a run (all families/boxes/starts, callable or differenced gradient, maxcor 1..10, horizon K<=25, small maxls allowed). Every callback invocation k is a crash point: "
     "(a) state_k (deep copy taken inside the callback) vs the result of a fresh run with maxiter=k, bitwise on x, fun, jac, nfev, njev, nit, sk, yk; (b) the retained live state and xk are "
     "unchanged when the run ends; (c) run with a False-returning callback vs run without callback, bitwise on result and evaluation log; (d) the objective raises at a drawn later call "
     "(crash), the harness restarts from the last retained state and compares the next iterate with the uninterrupted run. non-trivial = k>=2 and the state holds >=1 pair (for (d): the crash "
@@ -33,11 +33,12 @@ def check(spec, stats=None):
     prob = build(rspec["problem"])
     cfg = dict(rspec["cfg"])
     K = cfg["maxiter"]
-    full = run_min(prob, cfg, callback="passive")
+    mode = rspec.get("jac", "callable")
+    full = run_min(prob, cfg, callback="passive", jac_mode=mode)
     if full.exc is not None:
         raise full.exc
     # (c) callback presence does not alter the run
-    plain = run_min(prob, cfg)
+    plain = run_min(prob, cfg, jac_mode=mode)
     if plain.exc is not None:
         raise plain.exc
     diff = states_equal(full.res, plain.res, fields=("x", "fun", "jac", "nfev", "njev", "nit", "sk", "yk", "message", "success", "status"))
@@ -62,7 +63,7 @@ def check(spec, stats=None):
         require(1 <= k <= K, "nit-is-iteration-count", f"callback #{i} reports nit={k} in a run with maxiter={K}")
         cfg_k = dict(cfg)
         cfg_k["maxiter"] = k
-        rk = run_min(prob, cfg_k)
+        rk = run_min(prob, cfg_k, jac_mode=mode)
         if rk.exc is not None:
             raise rk.exc
         refs[k] = rk
@@ -87,7 +88,7 @@ def check(spec, stats=None):
         j = c["nf"] + off
         if j >= len(full.fun_calls):
             continue
-        crashed = run_min(prob, cfg, callback="passive", fault={"kind": "fun", "index": j, "exc": InjectedFault("power cut")})
+        crashed = run_min(prob, cfg, callback="passive", jac_mode=mode, fault={"kind": "fun", "index": j, "exc": InjectedFault("power cut")})
         if crashed.exc is None or not isinstance(crashed.exc, InjectedFault):
             raise Violation("crash-propagates", f"objective raised at call {j} but the run returned / raised {crashed.exc!r}")
         kept = crashed.cb[-1]
@@ -96,17 +97,26 @@ def check(spec, stats=None):
         require(d is None, "state-immutable-after-callback", f"retained state field {d!r} changed between the callback and the crash")
         cfg1 = dict(cfg)
         cfg1["maxiter"] = kk + 1
-        ref1 = run_min(prob, cfg1)
+        ref1 = run_min(prob, cfg1, jac_mode=mode)
         cfg0 = dict(cfg)
         cfg0["maxiter"] = kk
-        ref0 = refs.get(kk) or run_min(prob, cfg0)
+        ref0 = refs.get(kk) or run_min(prob, cfg0, jac_mode=mode)
         if ref1.exc is not None or ref0.exc is not None:
             raise (ref1.exc or ref0.exc)
-        rs = restart(prob, cfg, kept["live"], kk + 1)
+        c_rs = dict(cfg)
+        c_rs["maxiter"] = kk + 1
+        rs = run_min(prob, c_rs, checkpoint=kept["live"], x0=np.array(kept["live"].x, copy=True), jac_mode=mode)
         if rs.exc is not None:
             raise Violation("restart-from-callback-state", f"restart from the state of iteration {kk} raised {type(rs.exc).__name__}: {rs.exc}")
         if ref0.res["message"] == MSG_ITER and ref0.res["nit"] == kk:
-            check_next(ref0.res, ref1.res, rs.res, "after-crash", ref1, rs, stats)
+            check_next(ref0.res, ref1.res, rs.res, "after-crash", ref1 if mode == "callable" else None, rs if mode == "callable" else None, stats)
+            # when the continuation cost exactly as many objective evaluations as in the uninterrupted run it went
+            # through the same steps, so it computed the same number of gradients: njev must have resumed from the
+            # state's njev (with differenced gradients nfev and njev differ, so a mix-up of the two shows here)
+            if rs.res["nfev"] - kept["snap"]["nfev"] == ref1.res["nfev"] - ref0.res["nfev"] and np.array_equal(rs.res["x"], ref1.res["x"]):
+                require(rs.res["njev"] - kept["snap"]["njev"] == ref1.res["njev"] - ref0.res["njev"], "counters-resumed[njev]",
+                        f"jac={mode!r}: restart from state k={kk} (nfev={kept['snap']['nfev']}, njev={kept['snap']['njev']}) ends with njev={rs.res['njev']}; "
+                        f"the uninterrupted run goes from njev={ref0.res['njev']} to {ref1.res['njev']} with the same number of evaluations")
         if stats is not None:
             mid_ls = off >= 1
             stats.case({"run": rspec, "crash": [i, off]}, kk >= 1 and mid_ls, ["kind=crash-restart", f"mid_linesearch={mid_ls}"],
@@ -176,7 +186,7 @@ def tight_budget_strategy(draw):
 
 @st.composite
 def strategy(draw):
-    r = draw(run_spec(families=ALL_FAMILIES, n_max=8, jac_modes=("callable",), maxiter=(1, 25), maxfun=(30, 400), small_ls=draw(st.booleans()),
+    r = draw(run_spec(families=ALL_FAMILIES, n_max=8, jac_modes=("callable", "callable", "callable", None, "2-point"), maxiter=(1, 25), maxfun=(30, 400), small_ls=draw(st.booleans()),
                       ftols=(0.0, 1e-12), gtols=(1e-10, 1e-6)))
     crashes = draw(st.lists(st.tuples(st.integers(0, 24), st.integers(0, 3)), min_size=1, max_size=4))
     return {"run": r, "all_k": True, "crashes": crashes}
